@@ -82,6 +82,10 @@ def export_format(subtree, **params):
     """
     if subtree.data['edge'] == None:
         subtree.data['edge'] = '--'
+    if subtree.data['morph'] == None:
+        subtree.data['morph'] = "--"
+    if subtree.data['lemma'] == None:
+        subtree.data['lemma'] = "--"
     label = trees.get_label(subtree, **params)
     if not 'export_four' in params:
         if subtree.data['morph'] == None:
